@@ -463,6 +463,16 @@ func cmdCheck(args []string) {
 	cov["discharged"] = discharged
 	cov["undecided_new_obligations"] = len(undecided)
 	cov["by_backend"] = byBackend
+	byKind := map[string]int{}
+	byFunc := map[string]int{}
+	for _, o := range obs {
+		if o.ok() {
+			byKind[o.Kind]++
+			byFunc[o.Func]++
+		}
+	}
+	cov["discharged_by_kind"] = byKind
+	cov["discharged_by_function"] = byFunc
 	cov["solver_ms_total"] = solverMs
 	var fnames []string
 	for _, e := range encs {
@@ -676,6 +686,9 @@ func writeReplay(P *Program, path, prop, name, reason string, o *Oblig) string {
 			rec["query"] = o.Result.Query
 			if len(o.Result.Model) > 0 {
 				rec["model"] = o.Result.Model
+			}
+			if os.Getenv("GOVC_NOREPLAY") != "" {
+				replayBudget = 0
 			}
 			if replayBudget > 0 {
 				replayBudget--
